@@ -512,8 +512,20 @@ def _bounded_worker(args):
         return mod.bounded(tier, sd)
     except Exception as e:
         import traceback
+        tb = traceback.extract_tb(e.__traceback__)
+        root = os.path.realpath(os.environ.get('VERIF_REPO', '/repo'))
+        inner = os.path.realpath(tb[-1].filename) if tb else ''
+        text = traceback.format_exc()[-1500:]
+        if inner.startswith(root + os.sep):
+            # the exception was raised by the code under test (innermost frame inside the repository) and nothing in the harness expected it:
+            # on the unchanged tree this exploration completes, so this is the behaviour of the change - reported, not a checker crash
+            where = '%s:%s in %s' % (os.path.relpath(inner, root), tb[-1].lineno, tb[-1].name)
+            return dict(evaluations=1, distinct_nontrivial=1, distinct_keys=[], samples=[dict(aborted=where)], exhaustive=False,
+                        rule='the bounded exploration was aborted by an exception raised inside the code under test',
+                        violations=[dict(key='the code under test raised %s at %s during the bounded exploration' % (type(e).__name__, where),
+                                         observed=text, required='the exploration completes as it does on the unchanged tree (no unexpected exception from the code under test)')])
         return dict(evaluations=0, distinct_nontrivial=0, distinct_keys=[], rule='', samples=[], violations=[],
-                    crashed='seed %d: %s: %s\n%s' % (sd, type(e).__name__, e, traceback.format_exc()[-1500:]))
+                    crashed='seed %d: %s: %s\n%s' % (sd, type(e).__name__, e, text))
 
 
 def merge_bounded(runs, seeds):
